@@ -16,10 +16,9 @@ namespace ShootVerif.Cli
     name in the list, a diagnostic is printed and no written file holds a bad name -/
 theorem C16_model_meets_spec (cmd : Cmd) (pkg : Pkg) (fl : Flags) (h : region cmd pkg fl = .WF) :
     ∃ s, spec cmd pkg fl = some s ∧ meets (run cmd pkg fl) s = true := by
-  unfold region at h
-  by_cases hv : validPkg pkg = true
+  rcases region_wf_cases h with ⟨hv, h⟩ | ⟨_, hgo, hnf⟩
   · have v := validFacts hv
-    simp only [hv, Bool.not_true, Bool.false_eq_true, ↓reduceIte] at h
+    unfold regionValid at h
     cases hm : mode fl with
     | none => simp [hm] at h
     | some md =>
@@ -73,7 +72,8 @@ theorem C16_model_meets_spec (cmd : Cmd) (pkg : Pkg) (fl : Flags) (h : region cm
                 exact ⟨a, this.1, this.2⟩
             exact named_bad_meets cmd pkg fl v hm hnd hfile hbad
         · simp [hnd] at h
-  · simp [hv] at h
+  · obtain ⟨bad, ns, f, _, hs, hm⟩ := named_notinfile_meets cmd pkg fl hgo hnf
+    exact ⟨_, hs, hm⟩
 
 /-- the success message lists exactly the written files, in sorted order (all inputs, no side condition) -/
 theorem C16_listed (cmd : Cmd) (pkg : Pkg) (fl : Flags) (w : List (OutName × List String))
@@ -160,10 +160,10 @@ theorem C16_ineligible_skipped (cmd : Cmd) (pkg : Pkg) (fl : Flags) (h : region 
     t.name ∉ w.flatMap (·.2) := by
   obtain ⟨s, hs, hmeets⟩ := C16_model_meets_spec cmd pkg fl h
   have hv : validPkg pkg = true := by
-    unfold region at h
-    by_cases hv : validPkg pkg = true
+    rcases region_wf_cases h with ⟨hv, _⟩ | ⟨_, hgo, hnf⟩
     · exact hv
-    · simp [hv] at h
+    · obtain ⟨bad, ns, f, hm, _, _⟩ := named_notinfile_meets cmd pkg fl hgo hnf
+      exact absurd hm (hmode ns (some f))
   have v := validFacts hv
   have hel : ∀ inFile, t.name ∉ eligibleIn cmd pkg inFile := by
     intro inFile hmem
@@ -241,11 +241,12 @@ theorem C16_names (cmd : Cmd) (pkg : Pkg) (fl : Flags) (h : region cmd pkg fl = 
   rw [hr] at hr'
   cases hr'
   refine ⟨rfl, ?_⟩
+  have hwf := region_wf_cases h
   have hv : validPkg pkg = true := by
-    unfold region at h
-    by_cases hv : validPkg pkg = true
+    rcases hwf with ⟨hv, _⟩ | ⟨_, hgo, hnf⟩
     · exact hv
-    · simp [hv] at h
+    · obtain ⟨bad, ns, f, _, hs', _⟩ := named_notinfile_meets cmd pkg fl hgo hnf
+      rw [hs] at hs'; cases hs'
   have v := validFacts hv
   -- an eligible name is declared in the file `fileOf` reports
   have hdecl : ∀ inFile n, n ∈ eligibleIn cmd pkg inFile → ∃ f, fileOf pkg n = some f ∧ (∀ g, inFile = some g → f = g) := by
@@ -255,8 +256,11 @@ theorem C16_names (cmd : Cmd) (pkg : Pkg) (fl : Flags) (h : region cmd pkg fl = 
     obtain ⟨f, t⟩ := ft
     refine ⟨f, by simp [fileOf, findDecl_of_mem v hft], ?_⟩
     intro g hg; subst hg; simpa using hin
-  unfold region at h
-  simp only [hv, Bool.not_true, Bool.false_eq_true, ↓reduceIte] at h
+  have h : regionValid cmd pkg fl = .WF := by
+    rcases hwf with ⟨_, h'⟩ | ⟨hv', _⟩
+    · exact h'
+    · rw [hv] at hv'; cases hv'
+  unfold regionValid at h
   unfold spec at hs
   cases hm : mode fl with
   | none => simp [hm] at hs
@@ -394,5 +398,35 @@ example : run .enum [ { name := "d.go", comments := [],
                                   .consts [{ names := ["LevelOne"], typ := some "Level" }]] } ]
       { types := ["Level", "Missing"], cmdline := "shoot enum -type=Level,Missing" }
       = .done [(⟨"d", some "level"⟩, ["Level"])] [⟨"d", some "level"⟩] true := by decide
+
+/-! ### names that are not package-level types -/
+
+def wLocalPkg : Pkg :=
+  [ { name := "a.go", comments := [], decls := [.types [{ name := "User", shape := .struct }]] },
+    { name := "b.go", comments := [],
+      decls := [.consts [{ names := ["MaxRetries"], typ := some "int" }],
+                .func ["Elem"] [{ name := "row", shape := .struct }]] } ]
+
+/-- with `-file`, a function-local type, a predeclared type and a type parameter are all rejected (only package-level type
+    names have a file): well-formed region, covered by `C16_model_meets_spec` although the package is outside `validPkg` -/
+example : validPkg wLocalPkg = false ∧
+    region .new wLocalPkg { types := ["row"], file := "a.go", cmdline := "shoot new -file=a.go -type=row" } = .WF ∧
+    run .new wLocalPkg { types := ["row"], file := "a.go", cmdline := "shoot new -file=a.go -type=row" } = .stop .fatal ∧
+    region .enum wLocalPkg { types := ["int"], file := "b.go", cmdline := "shoot enum -file=b.go -type=int" } = .WF ∧
+    region .new wLocalPkg { types := ["Elem"], file := "b.go", cmdline := "shoot new -file=b.go -type=Elem" } = .WF := by decide
+
+/-- without `-file` the function-local struct `row` is accepted by name and gets the dot-file `.shootnew._row.go` -/
+theorem C16_F_nonpkg_type_witness_local :
+    region .new wLocalPkg { types := ["row"], cmdline := "shoot new -type=row" } = .F_nonpkg_type ∧
+    spec .new wLocalPkg { types := ["row"], cmdline := "shoot new -type=row" } = some (.rejected ["row"]) ∧
+    run .new wLocalPkg { types := ["row"], cmdline := "shoot new -type=row" }
+      = .done [(⟨"", some "_row"⟩, ["row"])] [⟨"", some "_row"⟩] false := by decide
+
+/-- `enum -type=int` generates for the predeclared type `int` because a constant is declared with it -/
+theorem C16_F_nonpkg_type_witness_predeclared :
+    region .enum wLocalPkg { types := ["int"], cmdline := "shoot enum -type=int" } = .F_nonpkg_type ∧
+    spec .enum wLocalPkg { types := ["int"], cmdline := "shoot enum -type=int" } = some (.rejected ["int"]) ∧
+    run .enum wLocalPkg { types := ["int"], cmdline := "shoot enum -type=int" }
+      = .done [(⟨"", some "_int"⟩, ["int"])] [⟨"", some "_int"⟩] false := by decide
 
 end ShootVerif.Cli
